@@ -406,6 +406,11 @@ class VariantIntervalCollection(AbstractFeatureIntervalCollection):
     def children_guids(self) -> Set[UUID]:
         return {x.guid for x in self.variant_intervals}
 
+    @property
+    def is_coding(self) -> bool:
+        """A collection of variants is never coding."""
+        return False
+
     def query_by_guids(self, id_or_ids: Union[UUID, List[UUID]]) -> "VariantIntervalCollection":
         if isinstance(id_or_ids, UUID):
             ids = [id_or_ids]
